@@ -970,6 +970,8 @@ class ExecComp(ExplicitComponent):
 
         # compute perturbations
         starting_inputs = self._inputs.asarray(copy=not self._relcopy)
+        # if the expressions are evaluated in place in the Vector arrays, keep the current outputs
+        starting_outputs = None if self._relcopy else oarr.copy()
         in_offsets = starting_inputs.copy()
         in_offsets[in_offsets == 0.0] = 1.0
         in_offsets *= info['perturb_size']
@@ -988,6 +990,7 @@ class ExecComp(ExplicitComponent):
 
         if not self._relcopy:
             self._inputs.set_val(starting_inputs)
+            oarr[:] = starting_outputs
 
         sparsity, sp_info = jac.get_sparsity()
         sparsity_time = time.perf_counter() - sparsity_start_time
@@ -1079,8 +1082,14 @@ class ExecComp(ExplicitComponent):
                                "level system is using complex step unless you manually call "
                                "declare_partials and/or declare_coloring on this ExecComp.")
 
+        # With force_alloc_complex the expressions are evaluated in place in the complex arrays of
+        # the input and output Vectors, so the current outputs have to be put back afterwards.
+        saved_outputs = None if self._relcopy else self._outarray.copy()
+
         if self._coloring_info.coloring is not None:
             self._compute_colored_partials(partials)
+            if saved_outputs is not None:
+                self._outarray[:] = saved_outputs
             return
 
         step = self.complex_stepsize * 1j
@@ -1144,6 +1153,9 @@ class ExecComp(ExplicitComponent):
 
                     # restore old input value
                     ival[idx] -= step
+
+        if saved_outputs is not None:
+            self._outarray[:] = saved_outputs
 
 
 class _ViewDict(object):
